@@ -513,6 +513,10 @@ func famC20(rn *Runner) {
 			bin("=", &EVar{RawQ{Local: "x"}}, lit("val")), pa(true, dos, &Stp{Axis: "child", Test: NodeTest{Kind: "pi"}, Abbrev: true}),
 			pa(true, &Stp{Axis: "child", Test: NodeTest{Kind: "any"}, Abbrev: true}), pa(true, dos, &Stp{Axis: "child", Test: NodeTest{Kind: "name", Local: "a"}, Preds: []Expr{num("2")}, Abbrev: true}),
 			pa(true, dos, &Stp{Axis: "namespace", Test: NodeTest{Kind: "any"}}),
+			// -v binds a STRING, whatever it looks like: a[$x] is a[boolean($x)], @id = $x compares strings
+			pa(true, dos, &Stp{Axis: "child", Test: NodeTest{Kind: "name", Local: "a"}, Preds: []Expr{&EVar{RawQ{Local: "x"}}}, Abbrev: true}),
+			call("boolean", &EVar{RawQ{Local: "x"}}),
+			pa(true, dos, &Stp{Axis: "child", Test: NodeTest{Kind: "name", Local: "a"}, Preds: []Expr{bin("=", pa(false, &Stp{Axis: "attribute", Test: NodeTest{Kind: "name", Local: "id"}, Abbrev: true}), &EVar{RawQ{Local: "x"}})}, Abbrev: true}),
 		}
 		run.e = pick(r, exprs)
 		if aftermath {
@@ -521,7 +525,7 @@ func famC20(rn *Runner) {
 		run.expr = Render(run.e, RenderOpts{})
 		run.ns = [][2]string{{"p", "urn:u1"}}
 		env.NS = []NSBind{{"p", "urn:u1"}}
-		run.vars = [][2]string{{"x", pick(r, []string{"val", "other"})}}
+		run.vars = [][2]string{{"x", pick(r, []string{"val", "other", "2", "0", "1.5", "02", "-3", ""})}}
 		env.Vars = []VarBind{{"", "x", VarVal{Kind: "str", Str: run.vars[0][1]}}}
 		if r.Chance(1, 2) {
 			run.ents = [][2]string{{"co", "ACME"}}
@@ -979,15 +983,21 @@ func cliConcurrency(rn *Runner) {
 		}
 		for i := 0; i < nfiles; i++ {
 			var b strings.Builder
-			b.WriteString("<r>")
+			// namespace declarations of its own in every file (the workers parse concurrently)
+			fmt.Fprintf(&b, `<r xmlns:p="urn:p%d" xmlns:q="urn:q%d" xmlns="urn:d%d">`, i, i, i)
 			for k := 0; k < items; k++ {
-				fmt.Fprintf(&b, "<a>f%d-%d</a>", i, k)
+				fmt.Fprintf(&b, `<a xmlns="">f%d-%d</a>`, i, k)
 			}
 			b.WriteString("</r>")
 			os.WriteFile(filepath.Join(dir, fmt.Sprintf("f%03d.xml", i)), []byte(b.String()), 0o644)
 		}
 		mode := pick(r, []string{"-a", "-a", "-m", ""})
 		args := []string{"-x", "//a", "-r"}
+		if round%3 == 2 {
+			// the namespace nodes of the document element: each file's own URIs
+			args = []string{"-x", "/*/namespace::*", "-r"}
+			mode = "-a"
+		}
 		if mode != "" {
 			args = append(args, mode)
 		}
